@@ -220,6 +220,16 @@ func (r *Report) Progress(format string, a ...interface{}) {
 
 // Write stores the result file the driver aggregates. Must be the last call.
 func (r *Report) Write() {
+	// when deferred and the test is panicking: store what was gathered as an INCOMPLETE
+	// result (the driver then classifies the crash from the log) and keep panicking
+	if p := recover(); p != nil {
+		r.write(false)
+		panic(p)
+	}
+	r.write(true)
+}
+
+func (r *Report) write(complete bool) {
 	r.mu.Lock()
 	defer r.mu.Unlock()
 	out := os.Getenv("VERIF_OUT")
@@ -229,7 +239,7 @@ func (r *Report) Write() {
 		return
 	}
 	job := os.Getenv("VERIF_JOB")
-	r.Complete = true
+	r.Complete = complete
 	b, err := json.Marshal(r)
 	if err != nil {
 		// samples or replays that cannot be marshalled must not lose the verdict
